@@ -402,6 +402,7 @@ static Plan gen_c15(uint64_t seed, const std::string &tier) {
     World &w = p.world;
     int depth = (int)r.range(1, 12);
     static const char *names[] = {"bash", "bash2", "ba", "sshd", "my prog", "a)b", "(paren)", "x", "fifteen-bytes-ok", "cron", "sudo", "tmux: server", ") S 1", "sh", "worker"};
+    static const char *odd_names[] = {"ab\ncd", "\nlead", "tab\tname", "trail\n", " lead", "trail ", "cr\rlf"};   // prctl(PR_SET_NAME) takes any bytes; the stat file prints them raw
     w.procs.clear();
     std::vector<int> pids = {w.pid};
     // pids up to the kernel's maximum (4194304): 7-digit pids next to 15-byte names make the longest stat lines
@@ -409,7 +410,7 @@ static Plan gen_c15(uint64_t seed, const std::string &tier) {
     for (int i = 0; i < depth; i++) { int p; bool dup; do { p = pidcls == 0 ? 1000 + i * 37 + (int)r.below(30) : pidcls == 1 ? (int)r.range(2, 4194303) : (int)r.range(1000000, 4194303); dup = false; for (int q : pids) if (q == p) dup = true; } while (dup); pids.push_back(p); }
     if (pidcls == 2) { w.pid = (int)r.range(1000000, 4194303); pids[0] = w.pid; }
     pids.push_back(r.chance(1, 8) ? 0 : 1);
-    for (size_t i = 0; i + 1 < pids.size(); i++) { Proc pr; pr.pid = pids[i]; pr.ppid = pids[i + 1]; pr.comm = std::string(names[r.below(15)]).substr(0, 15); w.procs.push_back(pr); }
+    for (size_t i = 0; i + 1 < pids.size(); i++) { Proc pr; pr.pid = pids[i]; pr.ppid = pids[i + 1]; pr.comm = std::string(names[r.below(15)]).substr(0, 15); if (i > 0 && r.chance(1, 12)) pr.comm = odd_names[r.below(7)]; w.procs.push_back(pr); }
     if (pids.back() == 1) { Proc in; in.pid = 1; in.ppid = 0; in.comm = "systemd"; w.procs.push_back(in); }
     w.ppid = pids[1];
     int fail_depth = -1;
@@ -603,6 +604,12 @@ static Plan gen_c08(uint64_t seed, const std::string &tier) {
             size_t L = 1020 + (size_t)r.below(3);
             if (roundtrip || r.chance(1, 2)) f += (r.chance(1, 2) ? ";" : "#") + std::string(L - 1, '-') + "\n";
             else { std::string head = r.chance(1, 2) ? "message_format = " : "syslog_ident = "; f += head + std::string(L - head.size(), 'm') + "\n"; }
+        }
+        if (r.chance(1, 10)) {   // an unknown option whose name begins with a known one, and a continuation line that belongs to it (and to nobody else)
+            static const char *sfx[] = {"_comment", "_old", "2", "_", "s", "-disabled"};
+            std::string known = opts[r.below(9)];
+            f += known + sfx[r.below(6)] + " = " + (r.chance(1, 2) ? "x" : c08_value(r, known, w, true)) + "\n";
+            if (r.chance(2, 3)) f += (r.chance(1, 2) ? "   " : "\t") + c08_value(r, known, w, true) + "\n";
         }
         std::string sep = r.chance(1, 4) ? "=" : r.chance(1, 4) ? ":" : r.chance(1, 2) ? " = " : "\t=   ";
         if (sep == ":" && (v.empty() || opt == "output")) sep = " = ";
